@@ -51,6 +51,25 @@ def respell(rnd: random.Random, v: str) -> str:
     return ep + ".".join(map(str, rel))
 
 
+def nonnorm(rnd: random.Random, v: str) -> str:
+    """A non-normalised spelling of the same version (PEP 440 appendix: v prefix, alternate
+    pre/post spellings, separators, case, implicit numbers)."""
+    ver = Version(v)
+    s = (f"{ver.epoch}!" if ver.epoch else "") + ".".join(map(str, ver.release))
+    if rnd.random() < 0.3:
+        s = rnd.choice(["v", "V"]) + s
+    if ver.pre:
+        name = {"a": ["a", "alpha", "A", "ALPHA"], "b": ["b", "beta", "B"], "rc": ["rc", "c", "pre", "preview", "RC"]}[ver.pre[0]]
+        s += rnd.choice(["", ".", "-", "_"]) + rnd.choice(name) + rnd.choice(["", ".", "-", "_"]) + str(ver.pre[1])
+    if ver.post is not None:
+        s += rnd.choice([f".post{ver.post}", f"-{ver.post}", f"post{ver.post}", f".rev{ver.post}", f"-r{ver.post}",
+                         f"_post{ver.post}", f".POST{ver.post}", f".post.{ver.post}"])
+    if ver.dev is not None:
+        s += rnd.choice([f".dev{ver.dev}", f"dev{ver.dev}", f"-dev{ver.dev}", f"_dev{ver.dev}", f".DEV{ver.dev}"])
+    assert Version(s) == ver, (s, v)
+    return s
+
+
 def version_pool(rnd: random.Random, n: int | None = None) -> list[str]:
     n = n or rnd.randint(6, 16)
     pool: list[str] = []
@@ -80,7 +99,7 @@ def _valid(text: str) -> bool:
         return False
 
 
-def gen_clause(rnd: random.Random, pool: list[str], *, arbitrary: bool = False) -> str:
+def gen_clause(rnd: random.Random, pool: list[str], *, arbitrary: bool = False, nonnorm_p: float = 0.08) -> str:
     for _ in range(20):
         v = rnd.choice(pool)
         k = rnd.random()
@@ -99,6 +118,9 @@ def gen_clause(rnd: random.Random, pool: list[str], *, arbitrary: bool = False) 
             text = rnd.choice(["==", "!="]) + ep + ".".join(map(str, rel)) + ".*"
         else:
             text = rnd.choice(ORD_OPS) + respell(rnd, v)
+        if nonnorm_p and rnd.random() < nonnorm_p and not text.endswith(".*"):
+            op = text[:2] if text[1] in "=" else text[:1]
+            text = op + rnd.choice(["", " "]) + nonnorm(rnd, text[len(op):])
         if arbitrary and rnd.random() < 0.15:
             text = "===" + rnd.choice(["1.0", "1.0.0", "abc", v])
         if _valid(text):
